@@ -127,6 +127,51 @@ func c05RunScenario(sc c05Scenario) (ev []histEvent, initial int, trace []string
 	return ev, initial, s.Trace(), b, "", nil
 }
 
+// c05FreshDuringReload: a reload is held at one of its later points (new database installed / cache purged) and a
+// client that has an old answer in the cache starts two queries there, first for a name that is not cached, then for
+// the cached one. Whatever they are allowed to see, the client's generations must not go backwards, and no response
+// may mix generations (they either wait for the reload or are answered from one side of the switch).
+func c05FreshDuringReload(b harness.Backend, stop string, kind string) (viol []histViolation, incon string) {
+	l, err := newLab(b, harness.ServerOpts{Cache: true}, 700)
+	if err != nil {
+		return nil, err.Error()
+	}
+	defer l.close()
+	initial := l.gen
+	s := schedFor()
+	dnsserver.SetVerifHook(s.Hook)
+	defer dnsserver.SetVerifHook(nil)
+	defer s.ReleaseAll()
+	cachedQ, otherQ := stampQueries[0], stampQueries[1]
+	l.query(7, cachedQ, "warm") // now in the cache with the old generation
+	pr := s.ParkAt(stop, matchReload)
+	rdone := make(chan struct{})
+	go func() { defer close(rdone); l.reload(kind) }()
+	if !arrivedOrDone(pr, rdone) {
+		pr.Release()
+		<-rdone
+		return nil, "reload never reached " + stop
+	}
+	qdone := make(chan struct{})
+	go func() {
+		defer close(qdone)
+		l.query(7, otherQ, "F1")
+		l.query(7, cachedQ, "F2")
+	}()
+	select {
+	case <-qdone: // answered while the reload is held
+	case <-time.After(300 * time.Millisecond): // waiting for the reload (they hold no verdict either way)
+	}
+	pr.Release()
+	<-rdone
+	<-qdone
+	l.query(7, cachedQ, "F3")
+	l.hist.mu.Lock()
+	ev := append([]histEvent{}, l.hist.events...)
+	l.hist.mu.Unlock()
+	return checkHistory(ev, initial, b), ""
+}
+
 // arrivedOrDone waits until the park is reached or the goroutine that could reach it has finished.
 // The generous timeout only guards against a wedged run; it yields "not reached", never a verdict.
 func arrivedOrDone(p *sched.Parked, done <-chan struct{}) bool {
@@ -225,7 +270,7 @@ func c05Chain(r *report.Run, b harness.Backend, seed int64, n int, viaControl bo
 }
 
 func runC05(r *report.Run) {
-	r.SetRule("every record of generation g carries the stamp g (TTL, A rdata, TXT, SOA serial); queries are TXT/MX/NS/referral/NXDOMAIN/wildcard/SOA so answer, authority and additional sections all carry stamps. (1) scheduled interleavings through the verif yield points: one query parked at each of its 7 points x a reload run to each of its 4 points or to completion x reload kinds {full ok, partial ok, missing path, unreadable, missing validation key, full/partial with a 1 ns reload timeout} x {cdb, rdb-v1, rdb-v2} x cache on/off; (2) sequential chains of mixed reloads (including switches back to the path served first, refreshed to a newer generation meanwhile, and full reloads naming the path already served after its content changed), also with the successful reloads requested through reload/switchdb files in a watched control directory (completion observed as the removal of the file); (3) free-running stress (8 clients + reloader, race-detector build). Every recorded history (call/return times at the client boundary, one monotonic clock) is checked offline: (i) one generation per response, (ii) no older generation after a successful reload returned and none from the future, (iii) per-client monotonic, (iv) the target of a failed reload is never observed. non-trivial = scenario in which the query really was parked at its point while the reload ran; distinct by hook-point sequence")
+	r.SetRule("every record of generation g carries the stamp g (TTL, A rdata, TXT, SOA serial); queries are TXT/MX/NS/referral/NXDOMAIN/wildcard/SOA so answer, authority and additional sections all carry stamps. (1) scheduled interleavings through the verif yield points: one query parked at each of its 7 points x a reload run to each of its 4 points or to completion x reload kinds {full ok, partial ok, missing path, unreadable, missing validation key, full/partial with a 1 ns reload timeout} x {cdb, rdb-v1, rdb-v2} x cache on/off; (1b) a reload held at r:swapped / r:purged while a client with a cached old answer asks an uncached and then the cached name; (2) sequential chains of mixed reloads (including switches back to the path served first, refreshed to a newer generation meanwhile, and full reloads naming the path already served after its content changed), also with the successful reloads requested through reload/switchdb files in a watched control directory (completion observed as the removal of the file); (3) free-running stress (8 clients + reloader, race-detector build). Every recorded history (call/return times at the client boundary, one monotonic clock) is checked offline: (i) one generation per response, (ii) no older generation after a successful reload returned and none from the future, (iii) per-client monotonic, (iv) the target of a failed reload is never observed. non-trivial = scenario in which the query really was parked at its point while the reload ran; distinct by hook-point sequence")
 	r.Assume("generations increase along the workload and every attempted target generation is unique; a 5 s park timeout only classifies a point as 'not on this query's path', it never decides a verdict")
 	type childOut struct {
 		res *childResult
@@ -286,6 +331,24 @@ func runC05(r *report.Run) {
 		}
 		for _, v := range sum.Violations {
 			r.Violation(v.Key, v.What, v.Scenario)
+		}
+	}
+	// fresh queries of a client with a cached old answer while a reload is held after the switch / after the purge
+	for _, b := range harness.Backends {
+		for _, stop := range []string{"r:swapped", "r:purged"} {
+			for _, kind := range []string{"full-ok", "partial-ok"} {
+				viol, incon := c05FreshDuringReload(b, stop, kind)
+				r.Eval(1)
+				r.Count("fresh_queries_during_held_reload_scenarios", 1)
+				if incon != "" {
+					r.Count("fresh_scenarios_not_applicable", 1)
+					continue
+				}
+				r.Nontrivial(fmt.Sprintf("fresh-%s-%s-%s", b.Name, stop, kind))
+				for _, v := range viol {
+					r.Violation(v.Key, fmt.Sprintf("%s, reload (%s) held at %s while a client with a cached old answer asks an uncached and then the cached name: rule (%s) %s", b.Name, kind, stop, v.Rule, v.What), map[string]string{"backend": b.Name, "stop": stop, "kind": kind})
+				}
+			}
 		}
 	}
 	// sequential chains (rule v)
